@@ -295,7 +295,7 @@ func derefB(p *[]byte) []byte {
 }
 
 func runC17(c *mon.Ctx) {
-	c.Rule("worker built with the Go race detector (GORACE halt_on_error=0, reports collected and de-duplicated by the supervisor; any report with a library frame is a violation). Rounds: G in {16,32,64} goroutines x GOMAXPROCS in {2,4,16}; each goroutine runs a seeded random mix of (a) read-only operations on SHARED claims-sets (P1, P2, extension; built by setters, by direct assignment and by decoding; one invalid) - Validate, all getters, component getters, CBOR/JSON encoding validating and not - and on SHARED Evidence (self-signed and decoded): Verify with right and wrong key, GetInstanceID, GetImplementationID, MarshalJSON; (b) operations on PRIVATE objects: NewClaims for every registered profile, setters, decode CBOR / JSON / COSE, validate, read, encode, SetClaims, ValidateAndSign, Verify. Extension profiles are registered before the goroutines start. The same seeds are first run sequentially; every operation's result digest must be identical in the concurrent run (signatures: verifies + payload equality). Call/return times from one monotonic clock give the number of operation pairs that actually overlapped on the same shared object; a round without such overlaps is inconclusive. Monitor state is per goroutine and merged after Wait(). distinct_nontrivial = distinct (round configuration, operation kind, object) signatures")
+	c.Rule("worker built with the Go race detector (GORACE halt_on_error=0, reports collected and de-duplicated by the supervisor; any report with a library frame is a violation). Rounds: G in {16,32,64} goroutines x GOMAXPROCS in {2,4,16}; each goroutine runs a seeded random mix of (a) read-only operations on SHARED claims-sets (P1, P2, extension; built by setters, by direct assignment and by decoding; one invalid) - Validate, all getters, component getters, CBOR/JSON encoding validating and not - and on SHARED Evidence (self-signed and decoded): Verify with right and wrong key, GetInstanceID, GetImplementationID, MarshalJSON; (b) operations on PRIVATE objects: NewClaims for every registered profile, setters, decode CBOR / JSON / COSE, validate, read, encode, SetClaims, ValidateAndSign, Verify. Profiles are only ever registered while no goroutine is running: the extension before the first round and one fresh profile before EVERY round, and each round runs its concurrent pass first, so that anything initialised lazily on first use (after a registration) is initialised under concurrency. The same seeds are then run sequentially; every operation's result digest must be identical in the concurrent run (signatures: verifies + payload equality). Call/return times from one monotonic clock give the number of operation pairs that actually overlapped on the same shared object; a round without such overlaps is inconclusive. Monitor state is per goroutine and merged after Wait(). distinct_nontrivial = distinct (round configuration, operation kind, object) signatures")
 	if err := extprof.Register(extprof.ExtP2Name); err != nil {
 		c.Violation("harness/register", err.Error(), nil)
 		return
@@ -318,6 +318,7 @@ func runC17(c *mon.Ctx) {
 	prev := runtime.GOMAXPROCS(0)
 	defer runtime.GOMAXPROCS(prev)
 	totalOverlap := int64(0)
+	roundNo := 0
 	for rep := 0; rep < reps; rep++ {
 		for ri, rc := range rounds {
 			s, err := buildC17Shared(g)
@@ -327,14 +328,17 @@ func runC17(c *mon.Ctx) {
 			}
 			per := opsPerRound / rc.G
 			seedBase := c.Seed*1_000_003 + int64(c.Shard)*10007 + int64(rep*100+ri)
-			// sequential reference
-			seq := make([][]c17Event, rc.G)
-			for gid := 0; gid < rc.G; gid++ {
-				r := rand.New(rand.NewSource(seedBase + int64(gid)*7919))
-				for i := 0; i < per; i++ {
-					seq[gid] = append(seq[gid], c17Op(s, r, gid, clock))
-				}
+			// A service may register further profiles while it is single-threaded
+			// (start-up, reconfiguration). Do so before every round and run the
+			// CONCURRENT pass first, so that whatever the library initialises
+			// lazily on first use after a registration is initialised under
+			// concurrency; the sequential reference run follows.
+			roundNo++
+			if err := psatoken.RegisterProfile(extprof.NumberedProfile{Name: fmt.Sprintf("http://example.com/c17/shard%d/round%d", c.Shard, roundNo), Base: 1 + roundNo%2}); err != nil {
+				c.Violation("harness/c17-register", "could not register a fresh profile between rounds: "+err.Error(), nil)
+				return
 			}
+			c.Count("registrations-between-rounds")
 			// concurrent run
 			runtime.GOMAXPROCS(rc.procs)
 			conc := make([][]c17Event, rc.G)
@@ -359,6 +363,14 @@ func runC17(c *mon.Ctx) {
 			close(gate)
 			wg.Wait()
 			runtime.GOMAXPROCS(prev)
+			// sequential reference (same seeds)
+			seq := make([][]c17Event, rc.G)
+			for gid := 0; gid < rc.G; gid++ {
+				r := rand.New(rand.NewSource(seedBase + int64(gid)*7919))
+				for i := 0; i < per; i++ {
+					seq[gid] = append(seq[gid], c17Op(s, r, gid, clock))
+				}
+			}
 			// compare
 			cfgName := fmt.Sprintf("G=%d,GOMAXPROCS=%d", rc.G, rc.procs)
 			byObj := map[int][]c17Event{}
